@@ -41,6 +41,7 @@ FRAGMENT = [
     "swap", "swap_remove_back", "swap_remove_front",
     "drop_range", "truncate_back", "truncate_front", "clear",
     "remove", "make_contiguous",
+    "fill_spare_with", "fill_with",
 ]
 # methods outside the fragment that fragment functions call: hand-model name, argument shape
 EXTERN = {}
@@ -63,7 +64,10 @@ FALLBACK = {
     "drop_range": "fun r => _root_.CircBuf.dropRange r.1 r.2", "truncate_back": "_root_.CircBuf.truncateBack",
     "truncate_front": "_root_.CircBuf.truncateFront", "clear": "_root_.CircBuf.clear", "remove": "_root_.CircBuf.remove",
     "make_contiguous": "_root_.CircBuf.makeContiguous",
+    "fill_spare_with": "_root_.CircBuf.fillSpareWith", "fill_with": "_root_.CircBuf.fillWith",
 }
+# fragment functions that return an *owned* `Option<T>`: a call whose value is discarded destroys it
+OWNED_OPT = set()
 # the iterator layer (`src/iter.rs`): free function / methods of `impl Iter`, as (generated name,
 # regex of the enclosing impl header or None, Rust fn name, hand-model counterpart)
 ITER_FRAGMENT = [
@@ -749,6 +753,9 @@ class Emit:
 
     def ex_call(self, e):
         name, args = e[1], e[2]
+        if self.kinds.get(name) == "producer" and not args:
+            t = self.fresh("e")
+            return [f"let {t} ← produceElem \"call\""], t, "elem"
         if name in ("add_mod", "sub_mod"):
             pre, vals = [], []
             for a in args:
@@ -902,8 +909,10 @@ class Emit:
             if name not in self.fragment:
                 raise TErr(f"call to self.{name} which is outside the translated fragment")
             for a in args:
-                p, v, _ = self.ex(a)
-                pre += p; vals.append(par(v))
+                p, v, ka = self.ex(a)
+                pre += p
+                if ka != "producer":
+                    vals.append(par(v))
             ret = self.fragment[name]
             call = " ".join([f"Gen.{name}"] + vals)
             if ret == "unit":
@@ -1069,6 +1078,8 @@ class Emit:
             if e[0] == "assign":
                 raise TErr("assign")
             p, v, kk = self.ex(e)
+            if e[0] == "mcall" and e[1] == ("path", "self") and e[2] in OWNED_OPT:
+                return p + [f"dropOpt {v}"]      # the `Option<T>` that is not used is destroyed here
             return p
         if s[0] == "assign":
             op, lhs, rhs = s[1], s[2], s[3]
@@ -1104,6 +1115,17 @@ class Emit:
         """`while v > 0 { body }` (drain mode): a recursive definition on a fuel argument over the variables
         the body assigns (in name order), called with fuel `v + 1`"""
         _, c, b = s
+        if (not self.drain_mode and not self.iter_mode and c[0] == "cmp" and c[1] == "<"
+                and c[2] == ("field", ("path", "self"), "size") and c[3] == ("path", "N") and b[2] is None):
+            # `while self.size < N { body }`: the fuelled loop `whileM` of Mem.lean, with fuel `N - size`
+            saved = dict(self.kinds)
+            lines = []
+            for x in b[1]:
+                lines += self.stmt(x)
+            self.kinds = saved
+            out = [f"whileM \"{self.fname}: fuel exhausted\" (do pure (decide ((← getBuf).size < (← getBuf).cap))) (do"]
+            out += ["    " + l for l in lines] + ["    pure ()) ((← getBuf).cap - (← getBuf).size)"]
+            return out
         if not (self.drain_mode and c[0] == "cmp" and c[1] == ">" and c[2][0] == "path" and c[3] == ("num", "0")
                 and self.kinds.get(c[2][1]) == "nat"):
             raise TErr("loop of an unsupported shape")
@@ -1421,6 +1443,8 @@ def parse_sig(sig, iter_mode=False):
         j += 1
     plist, rest = sig[i + 1:j - 1], sig[j:].strip()
     ret = None
+    if re.match(r"where\b", rest):
+        rest = ""
     if rest.startswith("->"):
         ret = rest[2:].strip()
     elif rest:
@@ -1455,6 +1479,8 @@ def parse_sig(sig, iter_mode=False):
             params.append((n, "Elem", "elem"))
         elif t == "Range<usize>":
             params.append((n, "Nat × Nat", "range"))
+        elif t == "F" and re.search(r"\bF\s*:\s*FnMut\(\)\s*->\s*T\b", sig):
+            params.append((n, None, "producer"))     # a closure producing elements: user code, `produceElem "call"`
         elif iter_mode and re.fullmatch(r"&('\w+ )?(mut )?CircularBuffer<N, T>", t):
             params.append((n, None, "bufref"))
         elif iter_mode and t == "R":
@@ -1598,7 +1624,7 @@ def translate(src, name, fragment):
         lines = lines[:-1] + [indent + term]
     if rty == "Bool":
         lines = [re.sub(r"^pure \((.*)\)$", r"pure (decide (\1))", l) if l.startswith("pure (") else l for l in lines]
-    ps = "".join(f" ({lean_name(n)} : {t})" for n, t, _ in params)
+    ps = "".join(f" ({lean_name(n)} : {t})" for n, t, _ in params if t is not None)
     head = f"/-- translated from `fn {name}` -/\ndef Gen.{name}{ps} : M ({rty}) := do"
     return head + "\n" + "\n".join(ind(lines)), rkind
 
@@ -1677,7 +1703,10 @@ def generate(force_fallback):
     for n in FRAGMENT:
         try:
             sig, _ = find_fn(src, n)
-            kinds[n] = parse_sig(sig)[1][1]
+            pr = parse_sig(sig)
+            kinds[n] = pr[1][1]
+            if pr[1][0] == "Option Elem":
+                OWNED_OPT.add(n)
         except Exception:
             pass
     failed = []
@@ -1724,7 +1753,7 @@ def generate(force_fallback):
             params, (rty, rkind) = parse_sig(sig)
         except Exception:
             params, rty, rkind = REF_SIG.get(n, ([], "Unit", "unit"))
-        ptys = " → ".join([t for _, t, _ in params] + [f"M ({rty})"])
+        ptys = " → ".join([t for _, t, _ in params if t is not None] + [f"M ({rty})"])
         why = why.replace("-/", "- /")
         fb[n] = (f"/-- `fn {n}` could not be translated on this run ({why}): the hand model\'s definition -/\n"
                  f"def Gen.{n} : {ptys} := {FALLBACK[n]}")
